@@ -24,6 +24,10 @@
 //	tf:<n>:<path>:<r>     traversal.FocusedTransform(n, path, replace-by r)    path = s<hex>|i<idx> joined by '/', or -
 //	en:<n>                dagcbor.Encode(n)            wk:<n>  walk n visiting every node
 //	cw:<s>:<i>:<byte>     the caller writes s[i] (excluded by the property; vacuous afterwards)
+//	lb:<n>                n.(LargeBytesNode).AsLargeBytes(): the reader becomes a register and stays alive
+//	rr:<r>:<k|a>          read up to k bytes (a: io.ReadAll) from reader register r   → outcome d:<hex>
+//	sk:<r>:<off>:<s|c|e>  r.Seek(off, io.SeekStart|SeekCurrent|SeekEnd)              → outcome p:<pos>
+//	<op>!                 any op with a trailing '!': the re-dump of all nodes after this step is skipped
 //
 // observation: steps separated by '|'; step = outcome{;item}; outcome = ok e:<class> panic nonode cnt<n> badreg;
 // items: <i>=<dump> first dump of register i (<i>~<dump> if it contains a streamBytes), c<i>=<dump> register i
@@ -64,6 +68,7 @@ const (
 	rValAsm
 	rNode
 	rSlice
+	rReader
 )
 
 type reg struct {
@@ -74,6 +79,7 @@ type reg struct {
 	na datamodel.NodeAssembler
 	n  datamodel.Node
 	s  []byte
+	rd io.ReadSeeker
 }
 
 type machine struct {
@@ -715,6 +721,54 @@ func (m *machine) exec(op string) (out string, nr reg) {
 		if err == nil {
 			return fmt.Sprintf("cnt%d", cnt), reg{}
 		}
+	case "lb":
+		r := m.get(atoi(f[1]))
+		if r.k != rNode || r.n == nil {
+			return misuse()
+		}
+		lbn, ok := r.n.(datamodel.LargeBytesNode)
+		if !ok {
+			return "e:wrong_kind", reg{}
+		}
+		var rd io.ReadSeeker
+		err = lib.Safely(func() error { var e error; rd, e = lbn.AsLargeBytes(); return e })
+		if err == nil {
+			nr = reg{k: rReader, rd: rd}
+		}
+	case "rr":
+		r := m.get(atoi(f[1]))
+		if r.k != rReader {
+			return misuse()
+		}
+		var data []byte
+		err = lib.Safely(func() error {
+			if f[2] == "a" {
+				var e error
+				data, e = io.ReadAll(r.rd)
+				return e
+			}
+			buf := make([]byte, atoi(f[2]))
+			k, e := io.ReadFull(r.rd, buf)
+			data = buf[:k]
+			if e == io.EOF || e == io.ErrUnexpectedEOF {
+				e = nil
+			}
+			return e
+		})
+		if err == nil {
+			return "d:" + lib.Hex(string(data)), reg{}
+		}
+	case "sk":
+		r := m.get(atoi(f[1]))
+		if r.k != rReader {
+			return misuse()
+		}
+		wh := map[string]int{"s": io.SeekStart, "c": io.SeekCurrent, "e": io.SeekEnd}[f[3]]
+		var pos int64
+		err = lib.Safely(func() error { var e error; pos, e = r.rd.Seek(int64(atoi(f[2])), wh); return e })
+		if err == nil {
+			return fmt.Sprintf("p:%d", pos), reg{}
+		}
 	case "cw":
 		s := m.get(atoi(f[1]))
 		var sl []byte
@@ -741,10 +795,17 @@ func (m *machine) exec(op string) (out string, nr reg) {
 }
 
 func (m *machine) step(op string) string {
+	// an op ending in '!' is not followed by the re-dump of all nodes (so that reader-level calls can
+	// be interleaved with nothing — no AsBytes of the dumper — in between)
+	quiet := strings.HasSuffix(op, "!")
+	op = strings.TrimSuffix(op, "!")
 	out, nr := m.exec(op)
 	m.regs = append(m.regs, nr)
 	var sb strings.Builder
 	sb.WriteString(out)
+	if quiet {
+		return sb.String()
+	}
 	for i, r := range m.regs {
 		if r.k != rNode {
 			continue
